@@ -223,3 +223,1075 @@ Proof.
     + exfalso. apply H1. rewrite He. now apply in_map.
   - exfalso. pose proof (find_none _ _ E g Hg) as Hf. simpl in Hf. rewrite res_eqb_refl in Hf. discriminate.
 Qed.
+
+(* ================================================================================================================ *)
+(* C. the run of the declarations: what each accepted call leaves behind, and that it stays                          *)
+(* ================================================================================================================ *)
+Local Arguments add_resources : simpl never.
+Local Arguments get_value : simpl never.
+
+Record grows (st st' : state) : Prop := {
+  gr_groups : exists ext, groups st' = groups st ++ ext;
+  gr_comps : incl (comps st) (comps st');
+  gr_cols : incl (cols st) (cols st');
+  gr_pnames : incl (pnames st) (pnames st');
+  gr_sourced : incl (sourced st) (sourced st');
+  gr_muts : exists m, muts st' = muts st ++ m;
+  gr_streams : incl (streams st) (streams st') }.
+
+Lemma grows_refl st : grows st st.
+Proof. constructor; try apply incl_refl; exists []; now rewrite app_nil_r. Qed.
+
+Lemma grows_trans a b c : grows a b -> grows b c -> grows a c.
+Proof.
+  intros [[e1 G1] C1 L1 P1 S1 [m1 M1] T1] [[e2 G2] C2 L2 P2 S2 [m2 M2] T2].
+  constructor; try (eapply incl_tran; eassumption).
+  - exists (e1 ++ e2). now rewrite G2, G1, app_assoc.
+  - exists (m1 ++ m2). now rewrite M2, M1, app_assoc.
+Qed.
+
+Lemma ensure_incl v l : incl l (ensure v l).
+Proof. unfold ensure. destruct (zmem v l); [apply incl_refl|]. intros x Hx. apply in_or_app. now left. Qed.
+
+Lemma ensure_In v l : In v (ensure v l).
+Proof.
+  unfold ensure. destruct (zmem v l) eqn:E; [now apply zmem_In|]. apply in_or_app. right. simpl. auto.
+Qed.
+
+Lemma get_value_grows st v : grows st (get_value st v).
+Proof.
+  constructor; simpl; try apply incl_refl; try (exists []; now rewrite app_nil_r). apply ensure_incl.
+Qed.
+
+(* what a successful add_resources does *)
+Lemma add_resources_ok st names p d st' :
+  add_resources st names p d = Ok st' ->
+  exists nm, nm <> [] /\ (names <> [] -> nm = names) /\ (names = [] -> nm = [RNull (nulls st)]) /\
+    add_group (groups st) nm p d = Ok (groups st') /\
+    groups st' = groups st ++ [mkgroup nm p d] /\
+    comps st' = comps st /\ cols st' = cols st /\ pnames st' = pnames st /\ sourced st' = sourced st /\
+    muts st' = muts st /\ streams st' = streams st.
+Proof.
+  unfold add_resources. destruct names as [|n ns].
+  - destruct (add_group (groups st) [RNull (nulls st)] p d) as [gs| |] eqn:E; try discriminate.
+    intros [= <-]. exists [RNull (nulls st)]. simpl. repeat split; try congruence; try reflexivity.
+    now apply add_group_ok in E as [-> _].
+  - destruct (add_group (groups st) (n :: ns) p d) as [gs| |] eqn:E; try discriminate.
+    intros [= <-]. exists (n :: ns). simpl. repeat split; try congruence; try reflexivity.
+    now apply add_group_ok in E as [-> _].
+Qed.
+
+Lemma add_resources_error st names p d e : add_resources st names p d = Rejected e -> e = EResource.
+Proof.
+  unfold add_resources. destruct names as [|n ns].
+  - destruct (add_group (groups st) [RNull (nulls st)] p d) as [gs| |] eqn:E; try discriminate.
+    intros [= <-]. now apply add_group_error in E.
+  - destruct (add_group (groups st) (n :: ns) p d) as [gs| |] eqn:E; try discriminate.
+    intros [= <-]. now apply add_group_error in E.
+Qed.
+
+Lemma add_resources_fuel st names p d : add_resources st names p d <> OutOfFuel.
+Proof.
+  unfold add_resources. destruct names as [|n ns].
+  - destruct (add_group (groups st) [RNull (nulls st)] p d) as [gs| |] eqn:E; try discriminate.
+    now apply add_group_fuel in E.
+  - destruct (add_group (groups st) (n :: ns) p d) as [gs| |] eqn:E; try discriminate.
+    now apply add_group_fuel in E.
+Qed.
+
+Lemma add_resources_grows st names p d st' : add_resources st names p d = Ok st' -> grows st st'.
+Proof.
+  intros H. apply add_resources_ok in H as [nm [_ [_ [_ [_ [G [C [L [P [S [M T]]]]]]]]]]].
+  constructor; try (rewrite ?C, ?L, ?P, ?S, ?T; apply incl_refl).
+  - eauto.
+  - exists []. now rewrite app_nil_r.
+Qed.
+
+Lemma add_resources_uniq st names p d st' :
+  uniq (groups st) -> add_resources st names p d = Ok st' -> uniq (groups st').
+Proof.
+  intros Hu H. apply add_resources_ok in H as [nm [Hne [_ [_ [G _]]]]]. eapply add_group_uniq; eauto.
+Qed.
+
+(* intermediate states of `step` that only touch the non-group fields *)
+Lemma with_inits_groups st a b : groups (with_inits st a b) = groups st.  Proof. reflexivity. Qed.
+Lemma with_pipes_groups st a b c : groups (with_pipes st a b c) = groups st.  Proof. reflexivity. Qed.
+Lemma with_streams_groups st a : groups (with_streams st a) = groups st.  Proof. reflexivity. Qed.
+
+Lemma step_grows kc st d st' : step kc st d = Ok st' -> grows st st'.
+Proof.
+  destruct d as [comp creates rc rv rs|v src rc rv rs|v u rc rv rs|v|s crn|t names pid deps]; simpl.
+  - destruct (zmem comp (comps st)); [discriminate|].
+    destruct (existsb (fun c => zmem c (cols st)) creates || zhas_dup creates); [discriminate|].
+    intros H. apply add_resources_grows in H. eapply grows_trans; [|exact H].
+    constructor; simpl; try apply incl_refl; try (exists []; now rewrite app_nil_r).
+    + apply incl_tl, incl_refl.
+    + apply incl_appr, incl_refl.
+  - set (st0 := match src with SPipe p => get_value st p | SFun => st end).
+    assert (G0 : grows st st0) by (destruct src; [apply grows_refl|apply get_value_grows]).
+    destruct (zmem v (sourced st0)); [discriminate|].
+    intros H. apply add_resources_grows in H. eapply grows_trans; [exact G0|]. eapply grows_trans; [|exact H].
+    constructor; simpl; try apply incl_refl; try (exists []; now rewrite app_nil_r).
+    + apply ensure_incl.
+    + apply incl_tl, incl_refl.
+  - set (st0 := match u with UPipe p => get_value st p | UFun _ => st end).
+    assert (G0 : grows st st0) by (destruct u; [apply grows_refl|apply get_value_grows]).
+    intros H. apply add_resources_grows in H. eapply grows_trans; [exact G0|]. eapply grows_trans; [|exact H].
+    constructor; simpl; try apply incl_refl; try (exists []; now rewrite app_nil_r).
+    + apply ensure_incl.
+    + eauto.
+  - intros [= <-]. apply get_value_grows.
+  - destruct (zmem s (streams st)); [discriminate|].
+    assert (G1 : grows st (with_streams st (s :: streams st))).
+    { constructor; simpl; try apply incl_refl; try (exists []; now rewrite app_nil_r). apply incl_tl, incl_refl. }
+    destruct crn.
+    + now intros [= <-].
+    + intros H. apply add_resources_grows in H. eapply grows_trans; eauto.
+  - destruct t; try discriminate; apply add_resources_grows.
+Qed.
+
+Lemma step_uniq kc st d st' : uniq (groups st) -> step kc st d = Ok st' -> uniq (groups st').
+Proof.
+  intros Hu.
+  destruct d as [comp creates rc rv rs|v src rc rv rs|v u rc rv rs|v|s crn|t names pid deps]; simpl.
+  - destruct (zmem comp (comps st)); [discriminate|].
+    destruct (existsb (fun c => zmem c (cols st)) creates || zhas_dup creates); [discriminate|].
+    apply add_resources_uniq. exact Hu.
+  - destruct (zmem v _); [discriminate|]. apply add_resources_uniq. destruct src; exact Hu.
+  - apply add_resources_uniq. destruct u; exact Hu.
+  - now intros [= <-].
+  - destruct (zmem s (streams st)); [discriminate|]. destruct crn.
+    + now intros [= <-].
+    + apply add_resources_uniq. exact Hu.
+  - destruct t; try discriminate; apply add_resources_uniq; exact Hu.
+Qed.
+
+Lemma step_error kc st d e : step kc st d = Rejected e ->
+  e = EPopulation \/ e = EDynamicValue \/ e = ERandomness \/ e = EResource.
+Proof.
+  destruct d as [comp creates rc rv rs|v src rc rv rs|v u rc rv rs|v|s crn|t names pid deps]; simpl.
+  - destruct (zmem comp (comps st)); [intros [= <-]; auto|].
+    destruct (existsb (fun c => zmem c (cols st)) creates || zhas_dup creates); [intros [= <-]; auto|].
+    intros H. apply add_resources_error in H. auto.
+  - destruct (zmem v _); [intros [= <-]; auto|]. intros H. apply add_resources_error in H. auto.
+  - intros H. apply add_resources_error in H. auto.
+  - discriminate.
+  - destruct (zmem s (streams st)); [intros [= <-]; auto|]. destruct crn; [discriminate|].
+    intros H. apply add_resources_error in H. auto.
+  - destruct t; try (intros H; apply add_resources_error in H; auto). intros [= <-]. auto.
+Qed.
+
+Lemma step_fuel kc st d : step kc st d <> OutOfFuel.
+Proof.
+  destruct d as [comp creates rc rv rs|v src rc rv rs|v u rc rv rs|v|s crn|t names pid deps]; simpl.
+  - destruct (zmem comp (comps st)); [discriminate|].
+    destruct (existsb (fun c => zmem c (cols st)) creates || zhas_dup creates); [discriminate|].
+    apply add_resources_fuel.
+  - destruct (zmem v _); [discriminate|]. apply add_resources_fuel.
+  - apply add_resources_fuel.
+  - discriminate.
+  - destruct (zmem s (streams st)); [discriminate|]. destruct crn; [discriminate|]. apply add_resources_fuel.
+  - destruct t; try apply add_resources_fuel. discriminate.
+Qed.
+
+Lemma run_grows kc : forall ds st st', run_decls kc st ds = Ok st' -> grows st st'.
+Proof.
+  induction ds as [|d r IH]; simpl; intros st st' H.
+  - injection H as <-. apply grows_refl.
+  - destruct (step kc st d) as [st1| |] eqn:E; try discriminate.
+    eapply grows_trans; [eapply step_grows; eauto|eauto].
+Qed.
+
+Lemma run_uniq kc : forall ds st st', uniq (groups st) -> run_decls kc st ds = Ok st' -> uniq (groups st').
+Proof.
+  induction ds as [|d r IH]; simpl; intros st st' Hu H.
+  - now injection H as <-.
+  - destruct (step kc st d) as [st1| |] eqn:E; try discriminate. eapply IH; [|exact H]. eapply step_uniq; eauto.
+Qed.
+
+Lemma run_error kc : forall ds st e, run_decls kc st ds = Rejected e ->
+  e = EPopulation \/ e = EDynamicValue \/ e = ERandomness \/ e = EResource.
+Proof.
+  induction ds as [|d r IH]; simpl; intros st e H; [discriminate|].
+  destruct (step kc st d) as [st1| |] eqn:E; try discriminate; [eauto|].
+  injection H as <-. eapply step_error; eauto.
+Qed.
+
+Lemma run_fuel kc : forall ds st, run_decls kc st ds <> OutOfFuel.
+Proof.
+  induction ds as [|d r IH]; simpl; intros st; [discriminate|].
+  destruct (step kc st d) as [st1| |] eqn:E; try discriminate; [apply IH|]. now apply step_fuel in E.
+Qed.
+
+(* every accepted declaration was accepted in some intermediate state, and what it left stays *)
+Lemma run_member kc : forall ds st stf d, run_decls kc st ds = Ok stf -> In d ds ->
+  exists st1 st2, grows st st1 /\ step kc st1 d = Ok st2 /\ grows st2 stf.
+Proof.
+  induction ds as [|d0 r IH]; simpl; intros st stf d H Hin; [contradiction|].
+  destruct (step kc st d0) as [st1| |] eqn:E; try discriminate.
+  destruct Hin as [->|Hin].
+  - exists st, st1. split; [apply grows_refl|]. split; [exact E|]. eapply run_grows; eauto.
+  - destruct (IH _ _ _ H Hin) as [sa [sb [G1 [S G2]]]]. exists sa, sb. split; [|auto].
+    eapply grows_trans; [eapply step_grows; eauto|exact G1].
+Qed.
+
+Lemma run_app kc : forall a b st stf, run_decls kc st (a ++ b) = Ok stf ->
+  exists sm, run_decls kc st a = Ok sm /\ run_decls kc sm b = Ok stf.
+Proof.
+  induction a as [|d r IH]; simpl; intros b st stf H; [eauto|].
+  destruct (step kc st d) as [st1| |] eqn:E; try discriminate. eauto.
+Qed.
+
+(* ---- what each kind of accepted call leaves in the state ---- *)
+Lemma muts_of_app v a b : muts_of v (a ++ b) = muts_of v a ++ muts_of v b.
+Proof. unfold muts_of. now rewrite filter_app, map_app. Qed.
+
+Lemma grows_group a b g : grows a b -> In g (groups a) -> In g (groups b).
+Proof. intros [[e ->] _ _ _ _ _ _] H. apply in_or_app. now left. Qed.
+
+Lemma grows_muts_of a b v : grows a b -> exists m, muts_of v (muts b) = muts_of v (muts a) ++ m.
+Proof. intros [_ _ _ _ _ [m ->] _]. rewrite muts_of_app. eauto. Qed.
+
+Lemma last_group st p d st' nm :
+  groups st' = groups st ++ [mkgroup nm p d] -> In (mkgroup nm p d) (groups st').
+Proof. intros ->. apply in_or_app. right. simpl. auto. Qed.
+
+Lemma step_init kc st comp creates rc rv rs st' :
+  step kc st (DInit comp creates rc rv rs) = Ok st' ->
+  ~ In comp (comps st) /\ (forall c, In c creates -> ~ In c (cols st)) /\ In comp (comps st') /\
+  incl creates (cols st') /\
+  exists nm, In (mkgroup nm comp (init_deps creates rc rv rs)) (groups st') /\
+             groups st' = groups st ++ [mkgroup nm comp (init_deps creates rc rv rs)] /\
+             (creates <> [] -> nm = map RCol creates) /\ (creates = [] -> exists k, nm = [RNull k]).
+Proof.
+  simpl. destruct (zmem comp (comps st)) eqn:Ec; [discriminate|].
+  destruct (existsb (fun c => zmem c (cols st)) creates) eqn:Ex; [discriminate|]. simpl.
+  destruct (zhas_dup creates); [discriminate|]. intros H.
+  apply add_resources_ok in H as [nm [_ [Hn1 [Hn2 [_ [G [C [L _]]]]]]]].
+  split; [now apply zmem_false|]. split.
+  { intros c Hc Hin. assert (existsb (fun c => zmem c (cols st)) creates = true); [|congruence].
+    apply existsb_exists. exists c. split; [exact Hc|now apply zmem_In]. }
+  split; [rewrite C; simpl; auto|]. split; [rewrite L; simpl; apply incl_appl, incl_refl|].
+  exists nm. split; [eapply last_group; eauto|]. split; [exact G|]. split.
+  - intros Hne. apply Hn1. destruct creates; [congruence|discriminate].
+  - intros ->. exists (nulls st). now apply Hn2.
+Qed.
+
+Lemma step_producer kc st v src rc rv rs st' :
+  step kc st (DProducer v src rc rv rs) = Ok st' ->
+  ~ In v (sourced st) /\ In v (sourced st') /\ In v (pnames st') /\
+  In (mkgroup [RSrc v] (-1) (src_deps src rc rv rs)) (groups st') /\
+  groups st' = groups st ++ [mkgroup [RSrc v] (-1) (src_deps src rc rv rs)].
+Proof.
+  simpl. set (st0 := match src with SPipe p => get_value st p | SFun => st end).
+  assert (Hs : sourced st0 = sourced st) by (destruct src; reflexivity).
+  assert (Hg : groups st0 = groups st) by (destruct src; reflexivity).
+  destruct (zmem v (sourced st0)) eqn:E; [discriminate|]. intros H.
+  apply add_resources_ok in H as [nm [_ [Hn1 [_ [_ [G [_ [_ [P [S _]]]]]]]]]].
+  assert (nm = [RSrc v]) as -> by (apply Hn1; discriminate).
+  split; [rewrite <- Hs; now apply zmem_false|]. split; [rewrite S; simpl; auto|].
+  split; [rewrite P; simpl; apply ensure_In|]. simpl in G. rewrite Hg in G.
+  split; [eapply last_group; eauto|exact G].
+Qed.
+
+Lemma step_modifier kc st v u rc rv rs st' :
+  step kc st (DModifier v u rc rv rs) = Ok st' ->
+  In v (pnames st') /\
+  exists l1, muts_of v (muts st') = l1 ++ [u] /\
+    In (mkgroup [RMod v (Z.of_nat (length (l1 ++ [u]))) (mut_name u)] (-1) (mod_deps u rc rv rs)) (groups st') /\
+    groups st' = groups st ++ [mkgroup [RMod v (Z.of_nat (length (l1 ++ [u]))) (mut_name u)] (-1) (mod_deps u rc rv rs)].
+Proof.
+  simpl. set (st0 := match u with UPipe p => get_value st p | UFun _ => st end).
+  assert (Hm : muts st0 = muts st) by (destruct u; reflexivity).
+  assert (Hg : groups st0 = groups st) by (destruct u; reflexivity).
+  intros H. apply add_resources_ok in H as [nm [_ [Hn1 [_ [_ [G [_ [_ [P [_ [M _]]]]]]]]]]].
+  match type of Hn1 with ?a <> [] -> _ => assert (nm = a) as -> by (apply Hn1; discriminate) end.
+  split; [rewrite P; simpl; apply ensure_In|].
+  exists (muts_of v (muts st0)). simpl in M, G.
+  assert (E : muts_of v (muts st0 ++ [(v, u)]) = muts_of v (muts st0) ++ [u]).
+  { rewrite muts_of_app. unfold muts_of at 2. simpl. now rewrite Z.eqb_refl. }
+  rewrite E in G. rewrite M. split; [exact E|]. rewrite Hg in G. split; [eapply last_group; eauto|exact G].
+Qed.
+
+Lemma step_stream kc st s st' :
+  step kc st (DStream s false) = Ok st' ->
+  ~ In s (streams st) /\ In s (streams st') /\ In (mkgroup [RStream s] (-1) (map RCol kc)) (groups st') /\
+  groups st' = groups st ++ [mkgroup [RStream s] (-1) (map RCol kc)].
+Proof.
+  simpl. destruct (zmem s (streams st)) eqn:E; [discriminate|]. intros H.
+  apply add_resources_ok in H as [nm [_ [Hn1 [_ [_ [G [_ [_ [_ [_ [_ T]]]]]]]]]]].
+  assert (nm = [RStream s]) as -> by (apply Hn1; discriminate).
+  split; [now apply zmem_false|]. split; [rewrite T; simpl; auto|]. simpl in G.
+  split; [eapply last_group; eauto|exact G].
+Qed.
+
+Lemma step_raw kc st t names pid deps st' :
+  step kc st (DRaw t names pid deps) = Ok st' ->
+  t <> RwUnknown /\
+  exists nm, In (mkgroup nm pid deps) (groups st') /\ groups st' = groups st ++ [mkgroup nm pid deps] /\
+             (names <> [] -> nm = map (raw_res t) names) /\ (names = [] -> exists k, nm = [RNull k]).
+Proof.
+  simpl. intros H.
+  assert (Ht : t <> RwUnknown) by (intros ->; discriminate). split; [exact Ht|].
+  assert (H' : add_resources st (map (raw_res t) names) pid deps = Ok st') by (destruct t; congruence).
+  apply add_resources_ok in H' as [nm [_ [Hn1 [Hn2 [_ [G _]]]]]].
+  exists nm. split; [eapply last_group; eauto|]. split; [exact G|]. split.
+  - intros Hne. apply Hn1. destruct names; [congruence|discriminate].
+  - intros ->. exists (nulls st). now apply Hn2.
+Qed.
+
+(* ---- on_post_setup ---- *)
+Definition vgroup (st : state) (v : Z) : group := mkgroup [RVal v] (-1) (value_deps st v).
+
+Lemma post_groups_ok st : forall vs gs gs', post_groups st vs gs = Ok gs' -> gs' = gs ++ map (vgroup st) vs.
+Proof.
+  induction vs as [|v r IH]; simpl; intros gs gs' H.
+  - injection H as <-. now rewrite app_nil_r.
+  - destruct (add_group gs [RVal v] (-1) (value_deps st v)) as [g1| |] eqn:E; try discriminate.
+    apply add_group_ok in E as [-> _]. rewrite (IH _ _ H), <- app_assoc. reflexivity.
+Qed.
+
+Lemma post_groups_uniq st : forall vs gs gs', uniq gs -> post_groups st vs gs = Ok gs' -> uniq gs'.
+Proof.
+  induction vs as [|v r IH]; simpl; intros gs gs' Hu H.
+  - now injection H as <-.
+  - destruct (add_group gs [RVal v] (-1) (value_deps st v)) as [g1| |] eqn:E; try discriminate.
+    eapply IH; [|exact H]. eapply add_group_uniq; eauto. discriminate.
+Qed.
+
+Lemma post_groups_error st : forall vs gs e, post_groups st vs gs = Rejected e -> e = EResource.
+Proof.
+  induction vs as [|v r IH]; simpl; intros gs e H; [discriminate|].
+  destruct (add_group gs [RVal v] (-1) (value_deps st v)) as [g1| |] eqn:E; try discriminate; [eauto|].
+  injection H as <-. now apply add_group_error in E.
+Qed.
+
+Lemma post_groups_fuel st : forall vs gs, post_groups st vs gs <> OutOfFuel.
+Proof.
+  induction vs as [|v r IH]; simpl; intros gs; [discriminate|].
+  destruct (add_group gs [RVal v] (-1) (value_deps st v)) as [g1| |] eqn:E; try discriminate; [apply IH|].
+  now apply add_group_fuel in E.
+Qed.
+
+Lemma number_from_In v u : forall l1 l2 i,
+  In (RMod v (i + Z.of_nat (length l1)) (mut_name u)) (number_from i v (l1 ++ u :: l2)).
+Proof.
+  induction l1 as [|x l1 IH]; intros l2 i; simpl.
+  - left. f_equal. lia.
+  - right. replace (i + Z.pos (Pos.of_succ_nat (length l1))) with ((i + 1) + Z.of_nat (length l1)) by lia. apply IH.
+Qed.
+
+(* ---- the initializer groups are exactly the initializer registrations, in order ---- *)
+Definition inits_of (gs : list group) : list Z := map g_prod (filter (fun g => is_init (key g)) gs).
+
+Lemma inits_of_app a b : inits_of (a ++ b) = inits_of a ++ inits_of b.
+Proof. unfold inits_of. now rewrite filter_app, map_app. Qed.
+
+Lemma step_inits kc st d st' :
+  step kc st d = Ok st' -> inits_of (groups st') = inits_of (groups st) ++ registered_inits [d].
+Proof.
+  destruct d as [comp creates rc rv rs|v src rc rv rs|v u rc rv rs|v|s crn|t names pid deps]; intros H.
+  - apply step_init in H as [_ [_ [_ [_ [nm [_ [-> [H1 H2]]]]]]]]. rewrite inits_of_app. f_equal.
+    destruct creates as [|c cr].
+    + destruct (H2 eq_refl) as [k ->]. reflexivity.
+    + rewrite (H1 ltac:(discriminate)). reflexivity.
+  - apply step_producer in H as [_ [_ [_ [_ ->]]]]. rewrite inits_of_app. reflexivity.
+  - apply step_modifier in H as [_ [l1 [_ [_ ->]]]]. rewrite inits_of_app. reflexivity.
+  - simpl in H. injection H as <-. simpl. now rewrite app_nil_r.
+  - destruct crn.
+    + simpl in H. destruct (zmem s (streams st)); [discriminate|]. injection H as <-. simpl. now rewrite app_nil_r.
+    + apply step_stream in H as [_ [_ [_ ->]]]. rewrite inits_of_app. reflexivity.
+  - apply step_raw in H as [Ht [nm [_ [-> [H1 H2]]]]]. rewrite inits_of_app. f_equal.
+    destruct names as [|n ns].
+    + destruct (H2 eq_refl) as [k ->]. destruct t; try congruence; reflexivity.
+    + rewrite (H1 ltac:(discriminate)). destruct t; try congruence; reflexivity.
+Qed.
+
+Lemma registered_inits_app a b : registered_inits (a ++ b) = registered_inits a ++ registered_inits b.
+Proof. unfold registered_inits. now rewrite flat_map_app. Qed.
+
+Lemma run_inits kc : forall ds st st', run_decls kc st ds = Ok st' ->
+  inits_of (groups st') = inits_of (groups st) ++ registered_inits ds.
+Proof.
+  induction ds as [|d r IH]; intros st st' H; simpl in H.
+  - injection H as <-. simpl. now rewrite app_nil_r.
+  - destruct (step kc st d) as [st1| |] eqn:E; try discriminate.
+    rewrite (IH _ _ H), (step_inits _ _ _ _ E). change (d :: r) with ([d] ++ r).
+    now rewrite registered_inits_app, app_assoc.
+Qed.
+
+Lemma inits_of_vgroups st vs : inits_of (map (vgroup st) vs) = [].
+Proof. induction vs as [|v r IH]; [reflexivity|]. exact IH. Qed.
+
+(* ================================================================================================================ *)
+(* D. the registrations of an accepted set of declarations                                                         *)
+(* ================================================================================================================ *)
+Record facts (kc : list Z) (ds : list decl) (gs : list group) : Prop := {
+  f_uniq : uniq gs;
+  (* every initializer registration is a column / null group produced by it, with the implicit dependencies *)
+  f_init : forall comp creates rc rv rs, In (DInit comp creates rc rv rs) ds ->
+     exists g, In g gs /\ g_prod g = comp /\ g_deps g = init_deps creates rc rv rs /\ is_init (key g) = true /\
+               (forall c, In c creates -> In (RCol c) (g_names g));
+  f_rawcol : forall names pid deps, In (DRaw RwColumn names pid deps) ds ->
+     exists g, In g gs /\ g_prod g = pid /\ is_init (key g) = true /\ (forall c, In c names -> In (RCol c) (g_names g));
+  (* every source / modifier is a group of its own, and the pipeline's value.<v> group depends on it *)
+  f_feed : forall d v op rc rv rs, In d ds -> feeds d = Some (v, op, rc, rv, rs) ->
+     exists r g1 g2, In g1 gs /\ g_names g1 = [r] /\
+        g_deps g1 = (match op with None => req_deps rc rv rs | Some p => [RVal p] end) /\
+        In g2 gs /\ g_names g2 = [RVal v] /\ In r (g_deps g2);
+  f_stream : forall s, In (DStream s false) ds ->
+     exists g, In g gs /\ g_names g = [RStream s] /\ g_deps g = map RCol kc;
+  f_inits : inits_of gs = registered_inits ds }.
+
+Lemma uniq_nil : uniq [].
+Proof. split; constructor. Qed.
+
+Theorem build_facts kc ds gs : build kc ds = Ok gs -> facts kc ds gs.
+Proof.
+  unfold build. destruct (run_decls kc init_state ds) as [stf| |] eqn:R; try discriminate. intros P.
+  pose proof (post_groups_ok _ _ _ _ P) as ->.
+  assert (Hin : forall g, In g (groups stf) -> In g (groups stf ++ map (vgroup stf) (pnames stf)))
+    by (intros; apply in_or_app; now left).
+  assert (Hv : forall v, In v (pnames stf) -> In (vgroup stf v) (groups stf ++ map (vgroup stf) (pnames stf)))
+    by (intros; apply in_or_app; right; now apply in_map).
+  constructor.
+  - eapply post_groups_uniq; [|exact P]. eapply run_uniq; [|exact R]. apply uniq_nil.
+  - intros comp creates rc rv rs Hd.
+    destruct (run_member _ _ _ _ _ R Hd) as [s1 [s2 [_ [S G]]]].
+    apply step_init in S as [_ [_ [_ [_ [nm [Hg [_ [H1 H2]]]]]]]].
+    exists (mkgroup nm comp (init_deps creates rc rv rs)). split; [apply Hin; eapply grows_group; eauto|].
+    simpl. repeat split.
+    + destruct creates as [|c cr]; [destruct (H2 eq_refl) as [k ->]; reflexivity|].
+      rewrite (H1 ltac:(discriminate)). reflexivity.
+    + intros c Hc. rewrite H1 by (intros ->; contradiction). now apply in_map.
+  - intros names pid deps Hd.
+    destruct (run_member _ _ _ _ _ R Hd) as [s1 [s2 [_ [S G]]]].
+    apply step_raw in S as [_ [nm [Hg [_ [H1 H2]]]]].
+    exists (mkgroup nm pid deps). split; [apply Hin; eapply grows_group; eauto|]. simpl. repeat split.
+    + destruct names as [|c cr]; [destruct (H2 eq_refl) as [k ->]; reflexivity|].
+      rewrite (H1 ltac:(discriminate)). reflexivity.
+    + intros c Hc. rewrite H1 by (intros ->; contradiction). now apply (in_map (raw_res RwColumn)).
+  - intros d v op rc rv rs Hd Hf.
+    destruct (run_member _ _ _ _ _ R Hd) as [s1 [s2 [_ [S G]]]].
+    destruct d as [? ? ? ? ?|v0 src rc0 rv0 rs0|v0 u rc0 rv0 rs0|?|? ?|? ? ? ?]; try discriminate.
+    + (* a source *)
+      apply step_producer in S as [_ [Hs [Hp [Hg _]]]].
+      assert (v0 = v /\ src_deps src rc0 rv0 rs0 = match op with None => req_deps rc rv rs | Some p => [RVal p] end)
+        as [-> Hdeps] by (destruct src; simpl in Hf; inversion Hf; subst; auto).
+      exists (RSrc v), (mkgroup [RSrc v] (-1) (src_deps src rc0 rv0 rs0)), (vgroup stf v).
+      split; [apply Hin; eapply grows_group; eauto|]. split; [reflexivity|]. split; [exact Hdeps|].
+      split; [apply Hv; eapply gr_pnames; eauto|]. split; [reflexivity|].
+      simpl. left. assert (E : zmem v (sourced stf) = true) by (apply zmem_In; eapply gr_sourced; eauto).
+      now rewrite E.
+    + (* a modifier *)
+      apply step_modifier in S as [Hp [l1 [Hm [Hg _]]]].
+      assert (v0 = v /\ mod_deps u rc0 rv0 rs0 = match op with None => req_deps rc rv rs | Some p => [RVal p] end)
+        as [-> Hdeps] by (destruct u; simpl in Hf; inversion Hf; subst; auto).
+      exists (RMod v (Z.of_nat (length (l1 ++ [u]))) (mut_name u)),
+             (mkgroup [RMod v (Z.of_nat (length (l1 ++ [u]))) (mut_name u)] (-1) (mod_deps u rc0 rv0 rs0)),
+             (vgroup stf v).
+      split; [apply Hin; eapply grows_group; eauto|]. split; [reflexivity|]. split; [exact Hdeps|].
+      split; [apply Hv; eapply gr_pnames; eauto|]. split; [reflexivity|].
+      assert (E2 : Z.of_nat (length (l1 ++ [u])) = 1 + Z.of_nat (length l1)) by (rewrite app_length, Nat2Z.inj_add; change (Z.of_nat (length [u])) with 1; lia).
+      rewrite E2. unfold vgroup, value_deps. cbn [g_deps]. right.
+      destruct (grows_muts_of _ _ v G) as [m ->]. rewrite Hm, <- app_assoc. apply number_from_In.
+  - intros s Hd.
+    destruct (run_member _ _ _ _ _ R Hd) as [s1 [s2 [_ [S G]]]].
+    apply step_stream in S as [_ [_ [Hg _]]].
+    exists (mkgroup [RStream s] (-1) (map RCol kc)). split; [apply Hin; eapply grows_group; eauto|]. auto.
+  - rewrite inits_of_app, inits_of_vgroups, app_nil_r. apply (run_inits _ _ _ _ R).
+Qed.
+
+(* who creates a column *)
+Lemma creators_In ds c j : In j (creators ds c) <->
+  (exists creates rc rv rs, In (DInit j creates rc rv rs) ds /\ In c creates) \/
+  (exists names deps, In (DRaw RwColumn names j deps) ds /\ In c names).
+Proof.
+  unfold creators. rewrite in_flat_map. split.
+  - intros [d [Hd Hj]]. destruct d as [comp creates rc rv rs|? ? ? ? ?|? ? ? ? ?|?|? ?|t names pid deps]; try contradiction.
+    + destruct (zmem c creates) eqn:E; [|contradiction]. destruct Hj as [<-|[]]. left. apply zmem_In in E. eauto 8.
+    + destruct t; try contradiction. destruct (zmem c names) eqn:E; [|contradiction]. destruct Hj as [<-|[]].
+      right. apply zmem_In in E. eauto.
+  - intros [[creates [rc [rv [rs [Hd Hc]]]]]|[names [deps [Hd Hc]]]].
+    + eexists. split; [exact Hd|]. simpl. apply zmem_In in Hc. rewrite Hc. simpl. auto.
+    + eexists. split; [exact Hd|]. simpl. apply zmem_In in Hc. rewrite Hc. simpl. auto.
+Qed.
+
+Lemma facts_creator kc ds gs c j : facts kc ds gs -> In j (creators ds c) ->
+  exists g, In g gs /\ In (RCol c) (g_names g) /\ g_prod g = j /\ is_init (key g) = true.
+Proof.
+  intros F Hj. apply creators_In in Hj as [[creates [rc [rv [rs [Hd Hc]]]]]|[names [deps [Hd Hc]]]].
+  - destruct (f_init _ _ _ F _ _ _ _ _ Hd) as [g [Hg [Hp [_ [Hi Hn]]]]]. exists g. auto.
+  - destruct (f_rawcol _ _ _ F _ _ _ Hd) as [g [Hg [Hp [Hi Hn]]]]. exists g. auto.
+Qed.
+
+(* ================================================================================================================ *)
+(* E. the specification: what an initializer requires, transitively                                                *)
+(* ================================================================================================================ *)
+Section Spec.
+Variable kc : list Z.
+Variable ds : list decl.
+
+(* a stream resource exists only for streams requested without initializes_crn_attributes *)
+Definition stream_declared (s : Z) : Prop := In (DStream s false) ds.
+
+(* pipeline v needs column c: through the declared requirements of its source or of any of its modifiers;
+   a required value stands for everything that value needs, a required stream for the CRN key columns, a pipeline
+   used as source / modifier for everything it needs *)
+Inductive needs : Z -> Z -> Prop :=
+  | N_col d v rc rv rs c : In d ds -> feeds d = Some (v, None, rc, rv, rs) -> In c rc -> needs v c
+  | N_val d v rc rv rs w c : In d ds -> feeds d = Some (v, None, rc, rv, rs) -> In w rv -> needs w c -> needs v c
+  | N_str d v rc rv rs s c : In d ds -> feeds d = Some (v, None, rc, rv, rs) -> In s rs -> stream_declared s ->
+                             In c kc -> needs v c
+  | N_pipe d v p rc rv rs c : In d ds -> feeds d = Some (v, Some p, rc, rv, rs) -> needs p c -> needs v c.
+
+(* the columns the initializer registration (creates, rc, rv, rs) requires *)
+Inductive init_req (creates rc rv rs : list Z) : Z -> Prop :=
+  | IR_col c : In c rc -> init_req creates rc rv rs c
+  | IR_tracked : ~ In tracked creates -> init_req creates rc rv rs tracked
+  | IR_val v c : In v rv -> needs v c -> init_req creates rc rv rs c
+  | IR_str s c : In s rs -> stream_declared s -> In c kc -> init_req creates rc rv rs c.
+
+(* j is called strictly before i *)
+Definition before (j i : Z) (o : list Z) : Prop := exists l1 l2, o = l1 ++ i :: l2 /\ In j l1.
+
+(* every registered initializer exactly once, each after the creator of every column it requires *)
+Definition order_ok (o : list Z) : Prop :=
+  Permutation o (registered_inits ds) /\
+  forall comp creates rc rv rs c j,
+    In (DInit comp creates rc rv rs) ds -> init_req creates rc rv rs c -> In j (creators ds c) -> before j comp o.
+
+(* ---- the graph contains a path for every requirement ---- *)
+Variable gs : list group.
+Hypothesis F : facts kc ds gs.
+
+Notation gpath := (path (edges_of gs)).
+
+Lemma key_single g r : g_names g = [r] -> key g = r.
+Proof. unfold key. now intros ->. Qed.
+
+Lemma edge_of_dep g g' d : In g gs -> In d (g_deps g) -> In g' gs -> In d (g_names g') -> gpath (key g') (key g).
+Proof. intros. apply path_edge. eapply dep_edge; eauto. apply (f_uniq _ _ _ F). Qed.
+
+Lemma in_req_col c rc rv rs : In c rc -> In (RCol c) (req_deps rc rv rs).
+Proof. intros H. unfold req_deps. apply in_or_app. left. now apply in_map. Qed.
+Lemma in_req_val v rc rv rs : In v rv -> In (RVal v) (req_deps rc rv rs).
+Proof. intros H. unfold req_deps. apply in_or_app. right. apply in_or_app. left. now apply in_map. Qed.
+Lemma in_req_str s rc rv rs : In s rs -> In (RStream s) (req_deps rc rv rs).
+Proof. intros H. unfold req_deps. apply in_or_app. right. apply in_or_app. right. now apply in_map. Qed.
+
+(* a pipeline that needs anything has a value.<v> group *)
+Lemma needs_vgroup v c : needs v c -> exists g, In g gs /\ g_names g = [RVal v].
+Proof.
+  intros H. destruct H as [d v rc rv rs c Hd Hf _|d v rc rv rs w c Hd Hf _ _|d v rc rv rs s c Hd Hf _ _ _|d v p rc rv rs c Hd Hf _];
+    destruct (f_feed _ _ _ F _ _ _ _ _ _ Hd Hf) as [r [g1 [g2 [_ [_ [_ [H2 [N2 _]]]]]]]]; eauto.
+Qed.
+
+Lemma needs_path v c : needs v c ->
+  forall gj, In gj gs -> In (RCol c) (g_names gj) -> gpath (key gj) (RVal v).
+Proof.
+  induction 1 as [d v rc rv rs c Hd Hf Hc|d v rc rv rs w c Hd Hf Hw Hn IH|d v rc rv rs s c Hd Hf Hs Hsd Hc
+                  |d v p rc rv rs c Hd Hf Hn IH]; intros gj Hgj Hcj;
+    destruct (f_feed _ _ _ F _ _ _ _ _ _ Hd Hf) as [r [g1 [g2 [H1 [N1 [D1 [H2 [N2 D2]]]]]]]];
+    pose proof (key_single _ _ N1) as K1; pose proof (key_single _ _ N2) as K2;
+    assert (E12 : gpath r (RVal v))
+      by (rewrite <- K1, <- K2; apply (edge_of_dep g2 g1 r); auto; rewrite N1; simpl; auto).
+  - (* a column required directly *)
+    eapply path_trans; [|exact E12]. rewrite <- K1. apply (edge_of_dep g1 gj (RCol c)); auto.
+    rewrite D1. now apply in_req_col.
+  - (* through a required value *)
+    destruct (needs_vgroup _ _ Hn) as [gw [Hgw Nw]].
+    eapply path_trans; [apply (IH gj Hgj Hcj)|]. eapply path_trans; [|exact E12].
+    rewrite <- K1, <- (key_single _ _ Nw). apply (edge_of_dep g1 gw (RVal w)); auto.
+    + rewrite D1. now apply in_req_val.
+    + rewrite Nw. simpl; auto.
+  - (* through a required stream: the CRN key columns *)
+    destruct (f_stream _ _ _ F _ Hsd) as [gsr [Hgs [Ns Ds]]].
+    apply path_trans with (w := key gsr); [|apply path_trans with (w := r); [|exact E12]].
+    + apply (edge_of_dep gsr gj (RCol c)); auto. rewrite Ds. now apply in_map.
+    + rewrite <- K1. apply (edge_of_dep g1 gsr (RStream s)); auto.
+      * rewrite D1. now apply in_req_str.
+      * rewrite Ns. simpl; auto.
+  - (* the source / modifier is itself a pipeline *)
+    destruct (needs_vgroup _ _ Hn) as [gp [Hgp Np]].
+    eapply path_trans; [apply (IH gj Hgj Hcj)|]. eapply path_trans; [|exact E12].
+    rewrite <- K1, <- (key_single _ _ Np). apply (edge_of_dep g1 gp (RVal p)); auto.
+    + rewrite D1. simpl; auto.
+    + rewrite Np. simpl; auto.
+Qed.
+
+(* gi is a registration of the initializer (creates, rc, rv, rs) *)
+Lemma init_req_path creates rc rv rs c : init_req creates rc rv rs c ->
+  forall gi gj, In gi gs -> g_deps gi = init_deps creates rc rv rs ->
+                In gj gs -> In (RCol c) (g_names gj) -> gpath (key gj) (key gi).
+Proof.
+  intros H gi gj Hgi Di Hgj Hcj. destruct H as [c Hc|Ht|v c Hv Hn|s c Hs Hsd Hc].
+  - apply (edge_of_dep gi gj (RCol c)); auto. rewrite Di. unfold init_deps. apply in_or_app. left. now apply in_req_col.
+  - apply (edge_of_dep gi gj (RCol tracked)); auto. rewrite Di. unfold init_deps. apply in_or_app. right.
+    apply zmem_false in Ht. rewrite Ht. simpl; auto.
+  - destruct (needs_vgroup _ _ Hn) as [gv [Hgv Nv]].
+    eapply path_trans; [apply (needs_path _ _ Hn gj Hgj Hcj)|].
+    rewrite <- (key_single _ _ Nv). apply (edge_of_dep gi gv (RVal v)); auto.
+    + rewrite Di. unfold init_deps. apply in_or_app. left. now apply in_req_val.
+    + rewrite Nv. simpl; auto.
+  - destruct (f_stream _ _ _ F _ Hsd) as [gsr [Hgs [Ns Ds]]].
+    apply path_trans with (w := key gsr).
+    + apply (edge_of_dep gsr gj (RCol c)); auto. rewrite Ds. now apply in_map.
+    + apply (edge_of_dep gi gsr (RStream s)); auto.
+      * rewrite Di. unfold init_deps. apply in_or_app. left. now apply in_req_str.
+      * rewrite Ns. simpl; auto.
+Qed.
+End Spec.
+
+(* ================================================================================================================ *)
+(* F. the order produced respects the requirements                                                                 *)
+(* ================================================================================================================ *)
+Lemma Permutation_filter' (A : Type) (f : A -> bool) (l l' : list A) :
+  Permutation l l' -> Permutation (filter f l) (filter f l').
+Proof.
+  induction 1 as [|x l l' _ IH|x y l|l l' l'' _ IH1 _ IH2]; simpl.
+  - constructor.
+  - destruct (f x); [now constructor|exact IH].
+  - destruct (f x), (f y); try apply Permutation_refl. apply perm_swap.
+  - eapply Permutation_trans; eauto.
+Qed.
+
+Lemma sort_groups_kahn gs o : sort_groups gs = Ok o ->
+  exists ko, kahn res_eqb (nodes_of gs) (edges_of gs) = Ok ko /\ o = map (prod_of gs) (filter is_init ko).
+Proof.
+  unfold sort_groups. destruct (kahn res_eqb (nodes_of gs) (edges_of gs)) as [ko| |]; try discriminate.
+  intros [= <-]. eauto.
+Qed.
+
+Lemma prods_of_keys gs : uniq gs -> forall l, incl l gs ->
+  map (prod_of gs) (filter is_init (map key l)) = inits_of l.
+Proof.
+  intros Hu. induction l as [|g l IH]; intros Hl; [reflexivity|]. unfold inits_of in *. simpl.
+  assert (Hg : In g gs) by (apply Hl; simpl; auto).
+  assert (Hl' : incl l gs) by (intros x Hx; apply Hl; simpl; auto).
+  destruct (is_init (key g)); simpl; rewrite (IH Hl'); [|reflexivity]. now rewrite prod_of_key.
+Qed.
+
+Lemma key_in_nodes gs g : In g gs -> In (key g) (nodes_of gs).
+Proof. intros H. unfold nodes_of. now apply in_map. Qed.
+
+(* a path between two initializer groups orders their producers in the list the population manager iterates *)
+Lemma path_orders gs ko gi gj :
+  uniq gs -> kahn res_eqb (nodes_of gs) (edges_of gs) = Ok ko ->
+  In gi gs -> In gj gs -> is_init (key gi) = true -> is_init (key gj) = true ->
+  path (edges_of gs) (key gj) (key gi) ->
+  before (g_prod gj) (g_prod gi) (map (prod_of gs) (filter is_init ko)).
+Proof.
+  intros Hu Hk Hgi Hgj Ii Ij Hp.
+  pose proof (kahn_sound res_eqb res_eqb_eq _ _ (edges_closed gs) (keys_nodup gs Hu) ko Hk) as [Hperm _].
+  assert (Hin : In (key gi) ko).
+  { eapply Permutation_in; [apply Permutation_sym; exact Hperm|]. now apply key_in_nodes. }
+  apply in_split in Hin as [l1 [l2 Hko]].
+  pose proof (kahn_order_respects_closure res_eqb res_eqb_eq _ _ (edges_closed gs) (keys_nodup gs Hu)
+                ko _ _ Hk Hp l1 l2 Hko) as Hj.
+  exists (map (prod_of gs) (filter is_init l1)), (map (prod_of gs) (filter is_init l2)). split.
+  - rewrite Hko, filter_app, map_app. simpl. rewrite Ii. simpl. now rewrite prod_of_key.
+  - rewrite <- (prod_of_key gs gj Hu Hgj). apply in_map. apply filter_In. auto.
+Qed.
+
+Theorem order_respects kc ds o : init_order kc ds = Ok o -> order_ok kc ds o.
+Proof.
+  unfold init_order. destruct (build kc ds) as [gs| |] eqn:B; try discriminate. intros S.
+  pose proof (build_facts _ _ _ B) as F. pose proof (f_uniq _ _ _ F) as Hu.
+  destruct (sort_groups_kahn _ _ S) as [ko [Hk ->]].
+  pose proof (kahn_sound res_eqb res_eqb_eq _ _ (edges_closed gs) (keys_nodup gs Hu) ko Hk) as [Hperm _].
+  split.
+  - rewrite <- (f_inits _ _ _ F), <- (prods_of_keys gs Hu gs (incl_refl _)).
+    apply Permutation_map, Permutation_filter'. exact Hperm.
+  - intros comp creates rc rv rs c j Hd Hr Hj.
+    destruct (f_init _ _ _ F _ _ _ _ _ Hd) as [gi [Hgi [Pi [Di [Ii _]]]]].
+    destruct (facts_creator _ _ _ _ _ F Hj) as [gj [Hgj [Hcj [Pj Ij]]]].
+    rewrite <- Pi, <- Pj. apply path_orders; auto.
+    eapply init_req_path; eauto.
+Qed.
+
+(* never out of fuel; the refusals carry one of the four error classes the code raises *)
+Theorem init_order_fuel kc ds : init_order kc ds <> OutOfFuel.
+Proof.
+  unfold init_order, build. destruct (run_decls kc init_state ds) as [st| |] eqn:R.
+  - destruct (post_groups st (pnames st) (groups st)) as [gs| |] eqn:P.
+    + unfold sort_groups.
+      assert (Hu : uniq gs) by (eapply post_groups_uniq; [|exact P]; eapply run_uniq; [|exact R]; apply uniq_nil).
+      pose proof (kahn_never_out_of_fuel res_eqb res_eqb_eq _ _ (edges_closed gs) (keys_nodup gs Hu)) as HF.
+      destruct (kahn res_eqb (nodes_of gs) (edges_of gs)); congruence.
+    + discriminate.
+    + now apply post_groups_fuel in P.
+  - discriminate.
+  - now apply run_fuel in R.
+Qed.
+
+Theorem init_order_error kc ds e : init_order kc ds = Rejected e ->
+  e = EPopulation \/ e = EDynamicValue \/ e = ERandomness \/ e = EResource.
+Proof.
+  unfold init_order, build. destruct (run_decls kc init_state ds) as [st| |] eqn:R.
+  - destruct (post_groups st (pnames st) (groups st)) as [gs| |] eqn:P.
+    + unfold sort_groups.
+      assert (Hu : uniq gs) by (eapply post_groups_uniq; [|exact P]; eapply run_uniq; [|exact R]; apply uniq_nil).
+      destruct (kahn res_eqb (nodes_of gs) (edges_of gs)) eqn:K; try discriminate.
+      intros [= <-]. apply (kahn_error_class res_eqb _ _) in K. auto.
+    + intros [= <-]. apply post_groups_error in P. auto.
+    + discriminate.
+  - intros [= <-]. eapply run_error; eauto.
+  - discriminate.
+Qed.
+
+(* ================================================================================================================ *)
+(* G. refusals                                                                                                     *)
+(* ================================================================================================================ *)
+Lemma not_ok_rejected kc ds : (forall o, init_order kc ds <> Ok o) -> exists e, init_order kc ds = Rejected e.
+Proof.
+  intros H. destruct (init_order kc ds) as [o|e|] eqn:E.
+  - exfalso. now apply (H o).
+  - eauto.
+  - exfalso. now apply (init_order_fuel kc ds).
+Qed.
+
+Lemma init_order_ok_build kc ds o : init_order kc ds = Ok o -> exists gs, build kc ds = Ok gs /\ sort_groups gs = Ok o.
+Proof. unfold init_order. destruct (build kc ds) as [gs| |]; try discriminate. eauto. Qed.
+
+Lemma build_ok_run kc ds gs : build kc ds = Ok gs -> exists st, run_decls kc init_state ds = Ok st.
+Proof. unfold build. destruct (run_decls kc init_state ds) as [st| |]; try discriminate. eauto. Qed.
+
+(* ---- a cycle anywhere in the graph (self-dependency included) ---- *)
+Theorem cycle_refused kc ds gs u :
+  build kc ds = Ok gs -> path (edges_of gs) u u -> init_order kc ds = Rejected EResource.
+Proof.
+  intros B Hp. unfold init_order. rewrite B. unfold sort_groups.
+  pose proof (f_uniq _ _ _ (build_facts _ _ _ B)) as Hu.
+  now rewrite (kahn_refuses_any_cycle res_eqb res_eqb_eq _ _ (edges_closed gs) (keys_nodup gs Hu) u Hp).
+Qed.
+
+(* ---- no false refusal: accepted registrations without a cycle are always given an order ---- *)
+Theorem acyclic_accepted kc ds gs :
+  build kc ds = Ok gs -> (forall u, ~ path (edges_of gs) u u) -> exists o, init_order kc ds = Ok o.
+Proof.
+  intros B Hac. unfold init_order. rewrite B. unfold sort_groups.
+  pose proof (f_uniq _ _ _ (build_facts _ _ _ B)) as Hu.
+  destruct (kahn_complete res_eqb res_eqb_eq _ _ (edges_closed gs) (keys_nodup gs Hu) Hac) as [ko ->]. eauto.
+Qed.
+
+Theorem refused_iff_cycle kc ds gs :
+  build kc ds = Ok gs -> ((exists e, init_order kc ds = Rejected e) <-> exists u, path (edges_of gs) u u).
+Proof.
+  intros B. pose proof (f_uniq _ _ _ (build_facts _ _ _ B)) as Hu.
+  pose proof (kahn_refuses_iff_cycle res_eqb res_eqb_eq _ _ (edges_closed gs) (keys_nodup gs Hu)) as K.
+  unfold init_order. rewrite B. unfold sort_groups. rewrite <- K.
+  destruct (kahn res_eqb (nodes_of gs) (edges_of gs)) as [ko|e|]; split; intros [e' H]; try discriminate; eauto.
+Qed.
+
+(* ---- a cycle among the declarations of initializers, through any mixture of columns, values, modifiers, streams ---- *)
+Inductive dep_on (kc : list Z) (ds : list decl) : decl -> decl -> Prop :=
+  | dep_on_intro j cr1 rc1 rv1 rs1 comp cr2 rc rv rs c :
+      In (DInit j cr1 rc1 rv1 rs1) ds -> In (DInit comp cr2 rc rv rs) ds ->
+      In c cr1 -> init_req kc ds cr2 rc rv rs c ->
+      dep_on kc ds (DInit j cr1 rc1 rv1 rs1) (DInit comp cr2 rc rv rs).
+
+Definition matches (gs : list group) (d : decl) (g : group) : Prop :=
+  match d with
+  | DInit comp cr rc rv rs =>
+      In g gs /\ g_deps g = init_deps cr rc rv rs /\ forall c, In c cr -> In (RCol c) (g_names g)
+  | _ => False
+  end.
+
+Lemma dep_on_path kc ds gs d1 d2 : facts kc ds gs -> dep_on kc ds d1 d2 ->
+  forall g1 g2, matches gs d1 g1 -> matches gs d2 g2 -> path (edges_of gs) (key g1) (key g2).
+Proof.
+  intros F H g1 g2 M1 M2. destruct H as [j cr1 rc1 rv1 rs1 comp cr2 rc rv rs c H1 H2 Hc Hr].
+  destruct M1 as [G1 [_ N1]], M2 as [G2 [D2 _]]. eapply init_req_path; eauto.
+Qed.
+
+Lemma dep_on_right kc ds gs d1 d2 : facts kc ds gs -> dep_on kc ds d1 d2 -> exists g, matches gs d2 g.
+Proof.
+  intros F H. destruct H as [j cr1 rc1 rv1 rs1 comp cr2 rc rv rs c H1 H2 Hc Hr].
+  destruct (f_init _ _ _ F _ _ _ _ _ H2) as [g [Hg [_ [Hd [_ Hn]]]]]. exists g. simpl. auto.
+Qed.
+
+Lemma dep_on_left kc ds gs d1 d2 : facts kc ds gs -> dep_on kc ds d1 d2 -> exists g, matches gs d1 g.
+Proof.
+  intros F H. destruct H as [j cr1 rc1 rv1 rs1 comp cr2 rc rv rs c H1 H2 Hc Hr].
+  destruct (f_init _ _ _ F _ _ _ _ _ H1) as [g [Hg [_ [Hd [_ Hn]]]]]. exists g. simpl. auto.
+Qed.
+
+Lemma dep_chain_path kc ds gs : facts kc ds gs -> forall d1 d2, Relation_Operators.clos_trans_n1 decl (dep_on kc ds) d1 d2 ->
+  forall g1 g2, matches gs d1 g1 -> matches gs d2 g2 -> path (edges_of gs) (key g1) (key g2).
+Proof.
+  intros F d1 d2 H. induction H as [y H|y z Hyz Hxy IH]; intros g1 g2 M1 M2.
+  - eapply dep_on_path; eauto.
+  - destruct (dep_on_left _ _ _ _ _ F Hyz) as [gy My].
+    eapply path_trans; [apply (IH g1 gy M1 My)|]. eapply dep_on_path; eauto.
+Qed.
+
+Theorem init_cycle_refused kc ds d :
+  Relation_Operators.clos_trans decl (dep_on kc ds) d d -> exists e, init_order kc ds = Rejected e.
+Proof.
+  intros H. apply not_ok_rejected. intros o Ho.
+  destruct (init_order_ok_build _ _ _ Ho) as [gs [B S]]. pose proof (build_facts _ _ _ B) as F.
+  apply Operators_Properties.clos_trans_tn1 in H.
+  assert (Hg : exists g, matches gs d g).
+  { inversion H; subst; eapply dep_on_right; eauto. }
+  destruct Hg as [g Mg].
+  pose proof (dep_chain_path _ _ _ F _ _ H g g Mg Mg) as Hp.
+  rewrite (cycle_refused _ _ _ _ B Hp) in Ho. discriminate.
+Qed.
+
+(* ---- two producers ---- *)
+Definition conflict (d1 d2 : decl) : Prop :=
+  match d1, d2 with
+  | DInit c1 cr1 _ _ _, DInit c2 cr2 _ _ _ => c1 = c2 \/ exists c, In c cr1 /\ In c cr2
+  | DProducer v1 _ _ _ _, DProducer v2 _ _ _ _ => v1 = v2
+  | DStream s1 _, DStream s2 _ => s1 = s2
+  | DRaw t1 n1 _ _, DRaw t2 n2 _ _ => t1 = t2 /\ exists n, In n n1 /\ In n n2
+  | _, _ => False
+  end.
+
+Lemma step_stream_any kc st s crn st' :
+  step kc st (DStream s crn) = Ok st' -> ~ In s (streams st) /\ In s (streams st').
+Proof.
+  destruct crn; [|intros H; apply step_stream in H; tauto].
+  simpl. destruct (zmem s (streams st)) eqn:E; [discriminate|]. intros [= <-].
+  split; [now apply zmem_false|simpl; auto].
+Qed.
+
+Lemma step_conflict kc sa d1 sb sc d2 sd :
+  conflict d1 d2 -> step kc sa d1 = Ok sb -> grows sb sc -> step kc sc d2 = Ok sd -> False.
+Proof.
+  intros C S1 G S2.
+  destruct d1 as [c1 cr1 ? ? ?|v1 ? ? ? ?|? ? ? ? ?|?|s1 ?|t1 n1 p1 e1];
+    destruct d2 as [c2 cr2 ? ? ?|v2 ? ? ? ?|? ? ? ? ?|?|s2 ?|t2 n2 p2 e2]; simpl in C; try contradiction.
+  - apply step_init in S1 as [_ [_ [Hc [Hl _]]]]. apply step_init in S2 as [Hnc [Hnl _]].
+    destruct C as [->|[c [H1 H2]]].
+    + apply Hnc. eapply gr_comps; eauto.
+    + apply (Hnl c H2). eapply gr_cols; eauto.
+  - subst v2. apply step_producer in S1 as [_ [Hs _]]. apply step_producer in S2 as [Hn _].
+    apply Hn. eapply gr_sourced; eauto.
+  - subst s2. apply step_stream_any in S1 as [_ Hs]. apply step_stream_any in S2 as [Hn _].
+    apply Hn. eapply gr_streams; eauto.
+  - destruct C as [<- [n [H1 H2]]].
+    apply step_raw in S1 as [_ [nm1 [Hg1 [_ [N1 _]]]]].
+    assert (Hnm1 : In (raw_res t1 n) nm1) by (rewrite N1 by (intros ->; contradiction); now apply in_map).
+    simpl in S2. assert (S2' : add_resources sc (map (raw_res t1) n2) p2 e2 = Ok sd) by (destruct t1; congruence).
+    apply add_resources_ok in S2' as [nm2 [_ [N2 [_ [A _]]]]].
+    apply add_group_ok in A as [_ [_ Hfresh]].
+    apply (Hfresh (raw_res t1 n)).
+    + rewrite N2; [now apply in_map|]. destruct n2; [contradiction|discriminate].
+    + unfold all_names. apply in_flat_map. eexists. split; [eapply grows_group; eauto|]. exact Hnm1.
+Qed.
+
+Theorem duplicates_refused kc l1 d1 l2 d2 l3 :
+  conflict d1 d2 -> exists e, init_order kc (l1 ++ d1 :: l2 ++ d2 :: l3) = Rejected e.
+Proof.
+  intros C. apply not_ok_rejected. intros o Ho.
+  destruct (init_order_ok_build _ _ _ Ho) as [gs [B _]]. destruct (build_ok_run _ _ _ B) as [stf R].
+  apply run_app in R as [sa [_ R]]. simpl in R.
+  destruct (step kc sa d1) as [sb| |] eqn:S1; try discriminate.
+  apply run_app in R as [sc [R2 R]]. simpl in R.
+  destruct (step kc sc d2) as [sd| |] eqn:S2; try discriminate.
+  eapply step_conflict; eauto. eapply run_grows; eauto.
+Qed.
+
+(* in every accepted set of registrations each resource has exactly one producer *)
+Theorem accepted_one_producer kc ds gs : build kc ds = Ok gs -> NoDup (all_names gs).
+Proof. intros B. apply (f_uniq _ _ _ (build_facts _ _ _ B)). Qed.
+
+(* ================================================================================================================ *)
+(* H. an unmet requirement only warns: it adds no edge, removes no edge and causes no refusal                       *)
+(* ================================================================================================================ *)
+Definition same_names (gs gs' : list group) : Prop :=
+  Forall2 (fun g g' => g_names g = g_names g' /\ g_prod g = g_prod g') gs gs'.
+
+Lemma same_names_refl gs : same_names gs gs.
+Proof. induction gs; constructor; auto. Qed.
+
+Lemma same_names_app a a' b b' : same_names a a' -> same_names b b' -> same_names (a ++ b) (a' ++ b').
+Proof. intros H1 H2. apply Forall2_app; assumption. Qed.
+
+Lemma same_key g g' : g_names g = g_names g' -> key g = key g'.
+Proof. unfold key. now intros ->. Qed.
+
+Lemma same_names_owner gs gs' r : same_names gs gs' -> owner gs r = owner gs' r.
+Proof.
+  unfold owner. induction 1 as [|g g' l l' [Hn _] _ IH]; [reflexivity|]. simpl. rewrite <- Hn.
+  destruct (rmem r (g_names g)); [now rewrite (same_key _ _ Hn)|exact IH].
+Qed.
+
+Lemma same_names_prod gs gs' k : same_names gs gs' -> prod_of gs k = prod_of gs' k.
+Proof.
+  unfold prod_of. induction 1 as [|g g' l l' [Hn Hp] _ IH]; [reflexivity|]. simpl.
+  rewrite <- (same_key _ _ Hn). destruct (res_eqb (key g) k); [exact Hp|exact IH].
+Qed.
+
+Lemma same_names_nodes gs gs' : same_names gs gs' -> nodes_of gs = nodes_of gs'.
+Proof.
+  unfold nodes_of. induction 1 as [|g g' l l' [Hn _] _ IH]; [reflexivity|]. simpl.
+  now rewrite IH, (same_key _ _ Hn).
+Qed.
+
+Lemma group_edges_ext gs gs' g : same_names gs gs' -> group_edges gs g = group_edges gs' g.
+Proof.
+  intros H. unfold group_edges. apply flat_map_ext. intros d. now rewrite (same_names_owner _ _ d H).
+Qed.
+
+Lemma group_edges_drop gs n p deps1 d deps2 : owner gs d = None ->
+  group_edges gs (mkgroup n p (deps1 ++ d :: deps2)) = group_edges gs (mkgroup n p (deps1 ++ deps2)).
+Proof.
+  intros H. unfold group_edges. cbn [g_deps]. rewrite !flat_map_app. cbn [flat_map]. now rewrite H.
+Qed.
+
+Theorem unmet_only_warn gs1 n p deps1 d deps2 gs2 :
+  let gs  := gs1 ++ mkgroup n p (deps1 ++ d :: deps2) :: gs2 in
+  let gs' := gs1 ++ mkgroup n p (deps1 ++ deps2) :: gs2 in
+  owner gs d = None ->
+  nodes_of gs = nodes_of gs' /\ edges_of gs = edges_of gs' /\ sort_groups gs = sort_groups gs'.
+Proof.
+  intros gs gs' Hd.
+  assert (HS : same_names gs gs').
+  { apply same_names_app; [apply same_names_refl|]. constructor; [simpl; auto|apply same_names_refl]. }
+  assert (HN : nodes_of gs = nodes_of gs') by now apply same_names_nodes.
+  assert (HE : raw_edges gs = raw_edges gs').
+  { unfold raw_edges. unfold gs at 2. unfold gs' at 2. rewrite !flat_map_app. cbn [flat_map].
+    f_equal; [|f_equal].
+    - apply flat_map_ext. intros g. now apply group_edges_ext.
+    - rewrite (group_edges_drop gs _ _ _ _ _ Hd). now apply group_edges_ext.
+    - apply flat_map_ext. intros g. now apply group_edges_ext. }
+  assert (HE' : edges_of gs = edges_of gs') by (unfold edges_of; now rewrite HE).
+  split; [exact HN|]. split; [exact HE'|].
+  unfold sort_groups. rewrite <- HN, <- HE'.
+  destruct (kahn res_eqb (nodes_of gs) (edges_of gs)); try reflexivity.
+  f_equal. apply map_ext. intros k. now apply same_names_prod.
+Qed.
+
+(* what the edges are: exactly one per KNOWN dependency (unknown ones contribute nothing) *)
+Theorem edges_characterised gs u v :
+  In (u, v) (edges_of gs) <-> exists g d, In g gs /\ In d (g_deps g) /\ owner gs d = Some u /\ v = key g.
+Proof. rewrite edges_of_In. apply raw_edges_In. Qed.
+
+(* ================================================================================================================ *)
+(* I. whatever order the components were supplied in                                                               *)
+(* ================================================================================================================ *)
+Lemma needs_ext kc ds ds' v c : (forall d, In d ds -> In d ds') -> needs kc ds v c -> needs kc ds' v c.
+Proof.
+  intros Hi. induction 1 as [d v rc rv rs c Hd Hf Hc|d v rc rv rs w c Hd Hf Hw Hn IH|d v rc rv rs s c Hd Hf Hs Hsd Hc
+                            |d v p rc rv rs c Hd Hf Hn IH].
+  - apply (N_col kc ds' d v rc rv rs c); auto.
+  - apply (N_val kc ds' d v rc rv rs w c); auto.
+  - apply (N_str kc ds' d v rc rv rs s c); auto. apply Hi. exact Hsd.
+  - apply (N_pipe kc ds' d v p rc rv rs c); auto.
+Qed.
+
+Lemma init_req_ext kc ds ds' cr rc rv rs c :
+  (forall d, In d ds -> In d ds') -> init_req kc ds cr rc rv rs c -> init_req kc ds' cr rc rv rs c.
+Proof.
+  intros Hi [c0 Hc|Ht|v c0 Hv Hn|s c0 Hs Hsd Hc].
+  - now apply IR_col.
+  - now apply IR_tracked.
+  - apply (IR_val kc ds' cr rc rv rs v c0); auto. eapply needs_ext; eauto.
+  - apply (IR_str kc ds' cr rc rv rs s c0); auto. apply Hi. exact Hsd.
+Qed.
+
+Lemma order_ok_perm kc ds ds' o : Permutation ds ds' -> order_ok kc ds' o -> order_ok kc ds o.
+Proof.
+  intros Hp [H1 H2]. split.
+  - eapply Permutation_trans; [exact H1|]. unfold registered_inits. apply Permutation_flat_map.
+    now apply Permutation_sym.
+  - intros comp creates rc rv rs c j Hd Hr Hj. eapply H2.
+    + eapply Permutation_in; eauto.
+    + eapply init_req_ext; [|exact Hr]. intros d. now apply Permutation_in.
+    + eapply Permutation_in; [|exact Hj]. unfold creators. now apply Permutation_flat_map.
+Qed.
+
+Theorem order_invariant_under_supply_order kc ds ds' o' :
+  Permutation ds ds' -> init_order kc ds' = Ok o' -> order_ok kc ds o'.
+Proof. intros Hp Ho. eapply order_ok_perm; [exact Hp|]. now apply order_respects. Qed.
+
+(* ================================================================================================================ *)
+(* J. the checker run on the observed call orders is sound                                                         *)
+(* ================================================================================================================ *)
+Lemma zsubset_In a b x : zsubset a b = true -> In x a -> In x b.
+Proof. unfold zsubset. rewrite forallb_forall. intros H Hx. apply zmem_In. now apply H. Qed.
+
+Lemma feeds_target d v op rc rv rs : feeds d = Some (v, op, rc, rv, rs) -> target d = Some v.
+Proof. unfold target. now intros ->. Qed.
+
+Lemma stream_cols_declared kc ds s : stream_declared ds s -> stream_cols kc ds s = kc.
+Proof.
+  intros H. unfold stream_cols.
+  assert (E : existsb (is_stream_decl s) ds = true).
+  { apply existsb_exists. exists (DStream s false). split; [exact H|]. simpl. apply Z.eqb_refl. }
+  now rewrite E.
+Qed.
+
+Lemma closed_needs kc ds T : closed kc ds T = true -> forall v c, needs kc ds v c -> In c (lookup T v).
+Proof.
+  unfold closed. rewrite forallb_forall. intros HC v c H.
+  induction H as [d v rc rv rs c Hd Hf Hc|d v rc rv rs w c Hd Hf Hw Hn IH|d v rc rv rs s c Hd Hf Hs Hsd Hc
+                  |d v p rc rv rs c Hd Hf Hn IH];
+    pose proof (HC d Hd) as Hsub; rewrite (feeds_target _ _ _ _ _ _ Hf) in Hsub;
+    apply (zsubset_In _ _ c Hsub); unfold contrib; rewrite Hf.
+  - apply in_or_app. now left.
+  - apply in_or_app. right. apply in_or_app. left. apply in_flat_map. eauto.
+  - apply in_or_app. right. apply in_or_app. right. apply in_flat_map. exists s. split; [exact Hs|].
+    now rewrite stream_cols_declared.
+  - exact IH.
+Qed.
+
+Lemma zcount_count x l : zcount x l = count_occ Z.eq_dec l x.
+Proof.
+  induction l as [|y r IH]; [reflexivity|]. simpl. destruct (Z.eq_dec y x) as [->|Hn].
+  - now rewrite Z.eqb_refl, IH.
+  - apply Z.eqb_neq in Hn. now rewrite Hn.
+Qed.
+
+Lemma zperm_Permutation a b : zperm a b = true -> Permutation a b.
+Proof.
+  unfold zperm. rewrite forallb_forall. intros H. apply (Permutation_count_occ Z.eq_dec). intros x.
+  rewrite <- !zcount_count.
+  destruct (in_dec Z.eq_dec x (a ++ b)) as [Hi|Hn].
+  - apply Nat.eqb_eq. now apply H.
+  - rewrite !zcount_count.
+    rewrite (proj1 (count_occ_not_In Z.eq_dec a x)) by (intro; apply Hn; apply in_or_app; now left).
+    rewrite (proj1 (count_occ_not_In Z.eq_dec b x)) by (intro; apply Hn; apply in_or_app; now right).
+    reflexivity.
+Qed.
+
+Lemma beforeb_before a b o : beforeb a b o = true -> before a b o.
+Proof.
+  induction o as [|x r IH]; simpl; [discriminate|].
+  destruct (x =? a) eqn:E.
+  - apply Z.eqb_eq in E. subst x. intros H. apply zmem_In, in_split in H as [r1 [r2 ->]].
+    exists (a :: r1), r2. split; [reflexivity|simpl; auto].
+  - intros H. destruct (IH H) as [l1 [l2 [-> Hin]]]. exists (x :: l1), l2. split; [reflexivity|simpl; auto].
+Qed.
+
+Theorem respects_with_sound kc ds T o : respects_with kc ds T o = true -> order_ok kc ds o.
+Proof.
+  unfold respects_with. rewrite !andb_true_iff. intros [[HC HP] HB]. split; [now apply zperm_Permutation|].
+  intros comp creates rc rv rs c j Hd Hr Hj. rewrite forallb_forall in HB. specialize (HB _ Hd). simpl in HB.
+  rewrite forallb_forall in HB.
+  assert (Hc : In c (init_needs kc ds T creates rc rv rs)).
+  { unfold init_needs. destruct Hr as [c Hc|Ht|v c Hv Hn|s c Hs Hsd Hc].
+    - apply in_or_app. now left.
+    - apply in_or_app. right. apply in_or_app. left. apply zmem_false in Ht. rewrite Ht. simpl; auto.
+    - apply in_or_app. right. apply in_or_app. right. apply in_or_app. left. apply in_flat_map.
+      exists v. split; [exact Hv|]. eapply closed_needs; eauto.
+    - apply in_or_app. right. apply in_or_app. right. apply in_or_app. right. apply in_flat_map.
+      exists s. split; [exact Hs|]. now rewrite stream_cols_declared. }
+  specialize (HB _ Hc). rewrite forallb_forall in HB. apply beforeb_before. now apply HB.
+Qed.
+
+Theorem respects_sound kc ds o : respects kc ds o = true -> order_ok kc ds o.
+Proof. apply respects_with_sound. Qed.
+
+(* what the correspondence check establishes about an observed call order *)
+Theorem check_case_observed kc ds ogs oes calls o :
+  check_case (kc, ds, ObsOk ogs oes calls) = true -> In o calls -> order_ok kc ds o.
+Proof.
+  unfold check_case. destruct (build kc ds) as [gs| |]; try discriminate.
+  destruct (sort_groups gs) as [mo| |]; try discriminate.
+  rewrite !andb_true_iff. intros [_ HC] Ho. rewrite forallb_forall in HC.
+  eapply respects_with_sound. now apply HC.
+Qed.
